@@ -201,6 +201,7 @@ type eventList struct {
 	seqs    sequenceNumSlice
 	events  map[sequenceNum]*event
 	lastSeq sequenceNum
+	hasLast bool // hasLast is true once lastSeq holds a delivered sequence.
 	maxSize int
 	timeout time.Duration
 }
@@ -223,6 +224,22 @@ func (l *eventList) remove() {
 	}
 }
 
+// advance records seq as delivered and returns the number of sequence numbers
+// skipped since the last in-order delivery. Late or duplicate sequences (those
+// not after lastSeq, accounting for rollover) neither count nor move lastSeq.
+func (l *eventList) advance(seq sequenceNum) int {
+	if !l.hasLast {
+		l.lastSeq, l.hasLast = seq, true
+		return 0
+	}
+	if !(sequenceNumSlice{l.lastSeq, seq}).Less(0, 1) {
+		return 0
+	}
+	lost := int(seq - l.lastSeq - 1)
+	l.lastSeq = seq
+	return lost
+}
+
 // Clear removes all events from the list and returns the events and the number
 // of list events.
 func (l *eventList) Clear() ([]*event, int) {
@@ -242,10 +259,7 @@ func (l *eventList) Clear() ([]*event, int) {
 		seq = l.seqs[0]
 		event := l.events[seq]
 
-		if l.lastSeq > 0 {
-			lost += int(seq - l.lastSeq - 1)
-		}
-		l.lastSeq = seq
+		lost += l.advance(seq)
 		evicted = append(evicted, event)
 		l.remove()
 	}
@@ -301,10 +315,7 @@ func (l *eventList) CleanUp() ([]*event, int) {
 		event := l.events[seq]
 
 		if event.complete || size > l.maxSize || event.IsExpired() {
-			if l.lastSeq > 0 {
-				lost += int(seq - l.lastSeq - 1)
-			}
-			l.lastSeq = seq
+			lost += l.advance(seq)
 			evicted = append(evicted, event)
 			l.remove()
 			continue
